@@ -51,6 +51,11 @@ CHECKS = {
    text="Stateless exploration under the controlled tokio scheduler of (i) two real Mux endpoints over an in-memory pipe with tiny limits (frame 8, buffer 32, 3 frames): scenario 1 forces reuse of a single reusable stream (server reads 10 of 20 bytes and drops the sub-stream; the next sub-stream must carry exactly its own bytes, EOF only for the counterpart), scenario 2 has three clients opening concurrently on a capability with limits 2/3 (tagged echo; simultaneously open sub-streams <= 2; no mixing); a scheduler-idle state with unfinished client/server tasks is a deadlock; (ii) one real Mux against a scripted raw peer that ignores flow control (floods DATA frames of 3/8/20 bytes while the application consumes 0/5/17 bytes; DATA before OPEN): bytes pulled from the transport beyond what the application consumed stay within read_buffer_size / read_frame_count accounting. All schedules within deviation bound 2 (quick, time-capped: the completed bound is reported) / 3 (thorough).",
    note="The mux runs ~15 internal tasks (600-900 choice points per execution), so bound 2 is ~10^6 executions per scenario; when the time cap is hit the evidence reports the completed bound (1) and `exhaustive: false`. More than 3 concurrent streams and head-of-line blocking are outside the scope.",
    technique="stateless model checking of the implementation under a controlled scheduler: exhaustive enumeration of task interleavings (deviation-bounded) of small client/server drivers and of a scripted adversarial peer, against per-stream byte-stream reference models and buffer accounting"),
+ "C15": dict(
+   category="model_checking", design="DESIGN.md §4 C15, §2.2",
+   text="(a) the real limiter::Limiter under the controlled tokio scheduler: five drivers (burst 1-3; 2-3 acquirers asking for 1..burst permits and holding them for 0-2 clock steps) with a clock environment that advances the manual clock by r, r/2 or 3r at every quiescent point (a choice): all executions within deviation bound 3 (quick, time-capped: completed bound reported) / 5 (thorough); oracle on the grant log: for every pair of grants, permits granted in [t, t+T] <= burst + T/r + 1; grants in arrival order; every acquire <= burst is eventually granted; acquire(burst+1) ends only by cancellation; infinite rate never blocks. 'A cancelled wait consumes nothing' as a differential enumeration of 324 scripts (burst, permits of holder / cancelled waiter / later caller, hold time, cancel time): the later caller's grant time with the cancelled waiter equals its grant time without it. (b) a real rpc::Service server (get_block RPC, INFLIGHT 5, counting handler) against a greedy real rpc::Client over an in-memory pipe: warm-up call, idle period (0 / 10 / 100 s), burst of 4-9 concurrent calls; handler start times obey the same window bound.",
+   note="The RPC part runs ~40 internal tasks (~2000 choice points per execution): default schedule only in the quick tier, bound 1 in thorough. Refresh period fixed at 1000 ms.",
+   technique="stateless model checking of the implementation under a controlled scheduler and manual clock (deviation-bounded enumeration of interleavings and clock steps) with a window-bound / FIFO oracle; exhaustive differential script enumeration"),
  "C16": dict(
    category="model_checking", design="DESIGN.md §4 C16",
    text="(a1) every operation sequence send(m)|recv of length <= 4 (quick) / 6 (thorough) over a 6-message alphabet (two senders, two kinds, views 1-3, one bad signature) on the real create_input_channel(), compared after every step with the stated rule on a Vec (one pending message per sender and kind, the highest view, FIFO among retained, dropped only if invalid or superseded); (a2) two REAL sender threads interleaved at every lock acquisition of the underlying tokio watch channel (thread-point hook in the vendored tokio: only one thread runs at a time, the harness picks who continues at every point): ALL interleavings of 8 message pairs, the final buffer must equal the rule's result for one of the two sequential orders (linearizability); (b) explicit-state search over the real replica (bftsim L1, minimal alphabet) with a flood of validly signed commit / timeout votes for views up to u64::MAX from a validator of weight <= f interleaved with ordinary inputs: after every step the four vote caches stay within the committee-size bound and every cached partial certificate sits at some validator's latest view.",
